@@ -414,6 +414,33 @@ func c17IsBig(n int64) bool {
 	return false
 }
 
+// c17lGenShrinkQueued: the cap fully used, further clients already waiting (the acceptor is queued in the
+// semaphore), a run-time shrink by at least 2 below the number of open connections, then several closes (and
+// more dials): while the shrink is parked at most the one Accept that was ahead of it may be served.
+func c17lGenShrinkQueued(r *verifh.Rand) interface{} {
+	c := r.Range(3, 5)
+	in := c17lInput{Cap0: uint32(c)}
+	for k := 0; k < c+r.Range(1, 3); k++ {
+		in.Ops = append(in.Ops, c17lOp{Op: "dial"})
+	}
+	in.Ops = append(in.Ops, c17lOp{Op: "set", N: uint32(r.Range(1, c-2))})
+	order := []int{}
+	for k := 0; k < c; k++ {
+		order = append(order, k)
+	}
+	for k := len(order) - 1; k > 0; k-- { // shuffle
+		j := r.Intn(k + 1)
+		order[k], order[j] = order[j], order[k]
+	}
+	for _, k := range order[:r.Range(3, c)] {
+		if r.Intn(3) == 0 {
+			in.Ops = append(in.Ops, c17lOp{Op: "dial"})
+		}
+		in.Ops = append(in.Ops, c17lOp{Op: "close", K: k})
+	}
+	return in
+}
+
 // c17lGenBig: grow to a capacity at / beyond maxCapacity, then shrink below usage, then closes and dials
 func c17lGenBig(r *verifh.Rand) interface{} {
 	in := c17lInput{Cap0: uint32(r.PickInt(1, 2, 3))}
@@ -440,6 +467,9 @@ func c17lGenBig(r *verifh.Rand) interface{} {
 }
 
 func c17lGen(r *verifh.Rand, i int) interface{} {
+	if r.Intn(12) == 0 {
+		return c17lGenShrinkQueued(r)
+	}
 	if r.Intn(15) == 0 {
 		return c17lGenBig(r)
 	}
